@@ -1,13 +1,22 @@
 #include <occa/internal/core/device.hpp>
 #include <occa/internal/core/streamTag.hpp>
+#ifdef LIBOCCA_OCCA_VERIF
+#include <occa/internal/verif.hpp>
+#endif
 
 namespace occa {
   modeStreamTag_t::modeStreamTag_t(modeDevice_t *modeDevice_) :
     modeDevice(modeDevice_) {
+#ifdef LIBOCCA_OCCA_VERIF
+    verif::liveAdd(verif::clsStreamTag, 1);
+#endif
     modeDevice->addStreamTagRef(this);
   }
 
   modeStreamTag_t::~modeStreamTag_t() {
+#ifdef LIBOCCA_OCCA_VERIF
+    verif::liveAdd(verif::clsStreamTag, -1);
+#endif
     // NULL all wrappers
     while (streamTagRing.head) {
       streamTag *mem = (streamTag*) streamTagRing.head;
